@@ -67,6 +67,19 @@ BUILT = {
    'TLC evaluates the wrapper machine (BklCli!WrapOp) on every argument vector of length <= MaxArgs over 16 argument kinds on a fixed directory, asserts OnlyBklFilesChange / UntouchedByteForByte / FailingFileMeansNoExec, and every vector is run through the real bklb (symlinked as probeb) or kubectl-bkl with a probe program on PATH that records its argv and the content of file arguments. Random directories (layers in mixed formats) with random vectors of 0-8 arguments are run the same way and validated by TLC; substituted files are decoded by the independent decoder (Python json / PyYAML core schema / tomllib) of the argument\'s extension and compared with the evaluation computed by the specification.',
    'Trusts the independent decoders and the probe script. Arguments that denote standard input (-.yaml) are not generated.',
    'TLA+ wrapper machine + TLC bounded argument-vector model with replay on the real binaries + TLC trace validation', '6 C20'),
+
+ 'C15': ('model_checking',
+   'bkld has freedom in its answer, so it is specified by the CONTRACT DiffOK(base, target, L): the layer L is accepted on top of the base and base + L evaluates to exactly the target, using the specification\'s own Merge/Eval; EmptyLayerWhenSame when base = target. TLC enumerates a base and every target one edit away (two in the deeper bound, both directions) over the property\'s edit catalogue and evaluates the contract on a transcription of the algorithm (design exploration); the harness runs the REAL bkld on every pair and on random edited trees in mixed formats, decodes the emitted layer with the independent decoder, TLC judges it with the contract, and the real bkl applies it to the base (its output must be the target).',
+   'Trusts TLC, tv and the independent decoders. Trees are map-rooted, null-free and $-free as the property states; tool output is requested as JSON or YAML.',
+   'TLA+ contract (BklTools!DiffOK) evaluated by TLC on the real tool output + bounded edit universe (MC_Tools) + real bkl application', '6 C15'),
+ 'C16': ('model_checking',
+   'bkli is specified by the CONTRACT IntersectOK (Common: every value of the result occurs in every input, list entries as a multiset; MarksDiffering: shared fields with differing values are $required and equal ones are kept; Maximal: nothing shared is dropped), SelfIntersect, and the migration law DiffOK(result, input_i, bkld(result, input_i)) for every input. TLC enumerates every ordered pair (deeper: triples) of documents one edit away from a common ancestor plus unrelated ones; the harness runs the REAL bkli on them and on random edited families in mixed formats and argument orders, then the real bkld + bkl migration per input; TLC judges all real outputs with the contracts.',
+   'Trusts TLC, tv and the independent decoders. Map-rooted, null-free, $-free trees; JSON/YAML tool output.',
+   'TLA+ contracts (BklTools!IntersectOK, DiffOK) evaluated by TLC on real tool outputs + bounded universe (MC_Tools) + real migration workflow', '6 C16'),
+ 'C17': ('model_checking',
+   'bklr is specified exactly: its output is Skeleton(merged layers) (declarative: the $required positions and the containers leading to them). TLC asserts on all 2^5 placements x 7 upper layers that the transcribed algorithm equals the declarative Skeleton, that the skeleton contains only markers and containers, is idempotent, and is non-empty exactly when evaluation fails; every case is run through the real bklr (output, run on its own output) and bkl (required-field error). Random trees with $required at random map values and list entries, 1-3 layers in mixed formats, are run the same way and judged by TLC.',
+   'Trusts TLC, tv and the independent decoders; inputs carry no directives other than $required (as the property states for the agreement with bkl).',
+   'TLA+ exact specification (BklTools!Skeleton) + TLC bounded placements with replay on bklr and bkl + trace validation', '6 C17'),
 }
 PENDING = 'check not built yet (work in progress; DESIGN.md section 6 describes the planned decision procedure)'
 
